@@ -1101,6 +1101,10 @@ func (ex *Executor) checkFrame(st *State, fr *Frame, old map[string]*Term, oldAl
 		if cur.Key() == o.Key() {
 			continue
 		}
+		if deadNewField(name) {
+			ex.note("field %s.%s is new (no contract can name it) and is never read by code of the repository: writes to it are outside the frame conditions", fieldByMap[name][0], fieldByMap[name][1])
+			continue
+		}
 		// one skolem index
 		r := Fresh("frame.r", SInt)
 		hyp := []*Term{Le(r, oldAlloc)}
